@@ -82,6 +82,27 @@ NATURE_OK = {
 }
 
 
+def _is_guess_withdrawal(st):
+    """`del self._initial[..]`, `self._initial.pop(..)`, or a try around such statements whose handlers only pass."""
+    if isinstance(st, ast.Delete):
+        return all(isinstance(t, ast.Subscript) and ast.unparse(t.value) == "self._initial" for t in st.targets)
+    if isinstance(st, ast.Expr) and is_call_to(st.value, "pop", "self._initial"):
+        return True
+    if isinstance(st, ast.Try):
+        return all(_is_guess_withdrawal(b) for b in st.body) and not st.orelse and not st.finalbody and \
+            all(all(isinstance(b, ast.Pass) for b in h.body) for h in st.handlers)
+    return isinstance(st, ast.Pass)
+
+
+def _only_withdraws_guesses(f, call):
+    """The nature test is the whole condition of an `if` without else whose body only withdraws recorded guesses
+    (no grid, constraint or placeholder is built differently): free and fixed horizons still share every construction path."""
+    for st in walk_no_nested(f.node):
+        if isinstance(st, ast.If) and st.test is call:
+            return not st.orelse and all(_is_guess_withdrawal(b) for b in st.body)
+    return False
+
+
 @rule("R11.2", min_instances=3, desc="parametricity: outside the two promotion handlers no branch tests the nature (numeric / symbolic / FreeTime) of a horizon-derived value")
 def r11_2(ctx):
     P = ctx.prog
@@ -101,7 +122,7 @@ def r11_2(ctx):
             elif (isinstance(c.func, ast.Attribute) and c.func.attr in NATURE_CALLS) or (isinstance(c.func, ast.Name) and c.func.id in NATURE_CALLS):
                 subject = ast.unparse(c.func.value) if isinstance(c.func, ast.Attribute) and not c.args else ", ".join(ast.unparse(a) for a in c.args) or ast.unparse(c.func.value)
                 is_nature = any(h in subject for h in HORIZON_NAMES)
-            if is_nature:
+            if is_nature and not _only_withdraws_guesses(f, c):
                 found[(f.qualname, t)] = (f, c)
     for key, (f, c) in sorted(found.items()):
         ctx.check(key in NATURE_OK, "%s tests %s" % key, detail="free and fixed horizons take different code paths", expected="no nature test on a horizon value outside the promotion handlers", found=key[1], fi=f, node=c,
@@ -214,3 +235,18 @@ def r11_7(ctx):
                   detail="default horizon guess registered ahead of (and regardless of) the user's own guess: time-dependent guesses given before transcription are evaluated with the default horizon",
                   expected="init = stage.%s.T_init; replaced by stage._initial[%s] when the user provided one" % (attr, ph), found=found, fi=f, node=(ini[0] if ini else None),
                   sample={"handler": f.qualname, "sources": found})
+
+
+@rule("R11.8", min_instances=2, desc="re-declaring the horizon as FreeTime(guess) makes that guess the starting value: a guess recorded earlier for ocp.T / ocp.t0 is dropped by set_T / set_t0")
+def r11_8(ctx):
+    """Since the promotion handler prefers a recorded user guess over the FreeTime default (R11.7), a later set_T(FreeTime(g))
+    must withdraw the older record, otherwise 'its starting value is the guess' fails for the new declaration."""
+    P = ctx.prog
+    for fname, ph in (("set_T", "self.T"), ("set_t0", "self.t0")):
+        f = P.own_method("Stage", fname)
+        sc = ctx.scope(f)
+        drops = [x for x in walk_no_nested(f.node) if (isinstance(x, ast.Delete) and any(ast.unparse(t) == "self._initial[%s]" % ph for t in x.targets)) or
+                 (is_call_to(x, "pop", "self._initial") and x.args and ast.unparse(x.args[0]) == ph)]
+        ok = bool(drops) and any("FreeTime" in ast.unparse(t) for d in drops for t, p in sc.guards(d) if p)
+        ctx.check(ok, "Stage.%s(FreeTime(guess)) withdraws an older guess for the horizon" % fname, detail="a guess recorded earlier with set_initial(ocp.T, ..) overrules the guess of a later FreeTime declaration",
+                  expected="if isinstance(value, FreeTime): drop self._initial[%s]" % ph, found="; ".join(ast.unparse(d) for d in drops) or "no withdrawal", fi=f)
